@@ -893,9 +893,24 @@ impl Inner {
 
         // build and register client, starting up read & write loops for the client
         // connection
+        #[cfg(iroh_verif)]
+        iroh_base::verif::apoint("relay.accept.before_register").await;
         self.clients
             .register(client_conn_builder, self.metrics.clone());
         Ok(())
+    }
+}
+
+#[cfg(iroh_verif)]
+impl RelayService {
+    /// Runs the private `Inner::accept` (what the HTTP upgrade handler calls) on a connection.
+    pub async fn verif_accept(
+        &self,
+        io: MaybeTlsStream,
+        request_parts: http::request::Parts,
+        protocol_version: ProtocolVersion,
+    ) -> Result<(), AcceptError> {
+        self.0.accept(io, request_parts, protocol_version).await
     }
 }
 
